@@ -236,6 +236,17 @@ impl SparqlDatabase {
         }
     }
 
+    /// Encode a term whose delimiters and escapes were already removed by
+    /// `clean_ntriples_term`: only quoted triples still need parsing, everything else is
+    /// the lexical value itself (no trimming, no second round of unquoting).
+    fn encode_cleaned_term(&self, term: &str) -> u32 {
+        if term.starts_with("<<") && term.ends_with(">>") {
+            self.encode_term_star(term)
+        } else {
+            self.dictionary.write().unwrap().encode(term)
+        }
+    }
+
     /// Decode a u32 ID that may be a regular dictionary ID or a quoted triple ID.
     pub fn decode_any(&self, id: u32) -> Option<String> {
         if is_quoted_triple_id(id) {
@@ -1496,9 +1507,9 @@ impl SparqlDatabase {
         for triple_strings in non_encoded_triples {
             for (subject, predicate, object) in triple_strings {
                 let main_triple = Triple {
-                    subject: self.encode_term_star(&subject),
-                    predicate: self.encode_term_star(&predicate),
-                    object: self.encode_term_star(&object),
+                    subject: self.encode_cleaned_term(&subject),
+                    predicate: self.encode_cleaned_term(&predicate),
+                    object: self.encode_cleaned_term(&object),
                 };
                 encoded_triples.push(main_triple);
             }
@@ -1529,20 +1540,17 @@ impl SparqlDatabase {
             if let Some((subject, predicate, object, graph)) =
                 self.parse_nquads_line(line_without_dot)
             {
-                match graph {
-                    Some(graph) => {
-                        self.add_quad_parts(&subject, &predicate, &object, &graph);
-                    }
-                    None => {
-                        let quad = Quad {
-                            subject: self.encode_term_star(&subject),
-                            predicate: self.encode_term_star(&predicate),
-                            object: self.encode_term_star(&object),
-                            graph: GraphId::Default,
-                        };
-                        self.add_quad(quad);
-                    }
-                }
+                let graph = match graph {
+                    Some(graph) => GraphId::Named(self.encode_cleaned_term(&graph)),
+                    None => GraphId::Default,
+                };
+                let quad = Quad {
+                    subject: self.encode_cleaned_term(&subject),
+                    predicate: self.encode_cleaned_term(&predicate),
+                    object: self.encode_cleaned_term(&object),
+                    graph,
+                };
+                self.add_quad(quad);
             }
         }
     }
